@@ -960,6 +960,115 @@ theorem one_row_per_key (rs : List RowIn) (cap : Nat) : (rowKeys cap (applyRows 
     exact hab (e1.symm.trans e2)
 
 
+/-! ### the key columns read back -/
+
+/-- one (tagN, stagN) column pair as the table stores it -/
+def colOf (t : Tag) : Nat × Bytes := if prefersInt t then (i32 t.i, []) else (0, t.s)
+
+/-- RowBinary reader of one (Int32, String) column pair -/
+def readCol (bs : Bytes) : Option ((Nat × Bytes) × Bytes) :=
+  match readU32 bs with
+  | none => none
+  | some (i, r1) =>
+    match readUvarint r1 with
+    | none => none
+    | some (n, r2) =>
+      match splitAt? n r2 with
+      | none => none
+      | some (s, r3) => some ((i, s), r3)
+
+def readCols : Nat → Bytes → Option (List (Nat × Bytes) × Bytes)
+  | 0, bs => some ([], bs)
+  | n + 1, bs =>
+    match readCol bs with
+    | none => none
+    | some (c, r1) =>
+      match readCols n r1 with
+      | none => none
+      | some (l, r2) => some (c :: l, r2)
+
+/-- reader of the key part of a row: index_type, metric, time, then MaxTags column pairs -/
+def readKeys (bs : Bytes) : Option ((Nat × Nat × List (Nat × Bytes)) × Bytes) :=
+  match bs with
+  | [] => none
+  | _ :: r0 =>
+    match readU32 r0 with
+    | none => none
+    | some (m, r1) =>
+      match readU32 r1 with
+      | none => none
+      | some (t, r2) =>
+        match readCols Gen.C03.maxTags r2 with
+        | none => none
+        | some (cols, r3) => some ((m, t, cols), r3)
+
+theorem readCol_encTag (t : Tag) (rest : Bytes) (h : t.s.length < 2 ^ 64) : readCol (encTag t ++ rest) = some (colOf t, rest) := by
+  unfold encTag colOf readCol
+  by_cases hp : prefersInt t = true
+  · simp only [hp, if_true, List.append_assoc, readU32_u32le _ (i32_lt t.i)]
+    simp [readUvarint, readUvarintAux, splitAt?]
+  · simp only [hp, Bool.false_eq_true, if_false, List.append_assoc, readU32_u32le 0 (by omega), rbString,
+      readUvarint_uvarint _ h, splitAt_append]
+
+theorem readCols_enc : ∀ (ts : List Tag) (rest : Bytes), (∀ t ∈ ts, t.s.length < 2 ^ 64) →
+    readCols ts.length (ts.flatMap encTag ++ rest) = some (ts.map colOf, rest) := by
+  intro ts
+  induction ts with
+  | nil => intro rest _; simp [readCols]
+  | cons t ts ih =>
+    intro rest h
+    simp only [List.flatMap_cons, List.length_cons, readCols, List.append_assoc]
+    rw [readCol_encTag t _ (h t (List.mem_cons_self ..))]
+    simp only
+    rw [ih rest (fun x hx => h x (List.mem_cons_of_mem _ hx))]
+    simp
+
+theorem slot_len (k : Key) (i : Nat) (hs : ∀ s ∈ k.stags, s.length < 2 ^ 64) : (slot k i).s.length < 2 ^ 64 := by
+  unfold slot
+  simp only [List.getD_eq_getElem?_getD]
+  cases hq : k.stags[i]? with
+  | none => simp
+  | some s => simp only [Option.getD_some]; exact hs s (List.mem_of_getElem? hq)
+
+/-- C03, key part of a row: time, metric and the 47 tag columns + the string-top column read back as written
+    (an int tag as (id, ""), a string tag as (0, string)) -/
+theorem keys_roundtrip (k : Key) (top : Tag) (rest : Bytes) (hts : k.ts < 4294967296)
+    (hs : ∀ s ∈ k.stags, s.length < 2 ^ 64) (htop : top.s.length < 2 ^ 64) :
+    readKeys (encKeys k top ++ rest) =
+      some ((i32 k.metric, k.ts, keySlots.map (fun i => colOf (slot k i)) ++ [colOf top]), rest) := by
+  have e : encKeys k top = [0] ++ u32le (i32 k.metric) ++ u32le k.ts ++ (keySlots.map (slot k) ++ [top]).flatMap encTag := by
+    simp [encKeys, List.flatMap_map, List.flatMap_append]
+  have hks : keySlots.length + 1 = Gen.C03.maxTags := by decide
+  have hl : (keySlots.map (slot k) ++ [top]).length = Gen.C03.maxTags := by simp [hks]
+  rw [e]
+  simp only [readKeys, List.append_assoc, List.cons_append, List.nil_append, readU32_u32le _ (i32_lt _), readU32_u32le _ hts]
+  rw [← hl, readCols_enc]
+  · simp [List.map_map, Function.comp_def]
+  · intro t ht
+    rcases List.mem_append.mp ht with ht | ht
+    · obtain ⟨i, _, rfl⟩ := List.mem_map.mp ht
+      exact slot_len k i hs
+    · simp only [List.mem_singleton] at ht; subst ht; exact htop
+
+/-- … hence two rows with the same key bytes have the same time, metric and columns: distinct column tuples are distinct rows -/
+theorem key_columns_injective (k k' : Key) (top top' : Tag) (hts : k.ts < 4294967296) (hts' : k'.ts < 4294967296)
+    (hs : ∀ s ∈ k.stags, s.length < 2 ^ 64) (hs' : ∀ s ∈ k'.stags, s.length < 2 ^ 64)
+    (htop : top.s.length < 2 ^ 64) (htop' : top'.s.length < 2 ^ 64) (h : encKeys k top = encKeys k' top') :
+    i32 k.metric = i32 k'.metric ∧ k.ts = k'.ts ∧
+    keySlots.map (fun i => colOf (slot k i)) = keySlots.map (fun i => colOf (slot k' i)) ∧ colOf top = colOf top' := by
+  have a := keys_roundtrip k top [] hts hs htop
+  have b := keys_roundtrip k' top' [] hts' hs' htop'
+  rw [h] at a
+  rw [a] at b
+  simp only [Option.some.injEq, Prod.mk.injEq, and_true] at b
+  obtain ⟨b1, b2, b3⟩ := b
+  have hlen : (keySlots.map (fun i => colOf (slot k i))).length = (keySlots.map (fun i => colOf (slot k' i))).length := by simp
+  have := List.append_inj b3 hlen
+  exact ⟨b1, b2, this.1, by simpa using this.2⟩
+
+example : readCol (encTag ⟨0, [104]⟩ ++ [9]) = some ((0, [104]), [9]) ∧ readCol (encTag ⟨-2, [104]⟩) = some ((4294967294, []), []) := by
+  constructor <;> rfl
+
 section Sketch
 open SH.Unique SH.C04
 
@@ -1142,4 +1251,70 @@ example : (readUnique (encUnique (ustOf (aggSk UP [[1, 2, 0], [2, 7]]) (nonZero 
 
 end Sketch
 
+/-! ## witnesses (non-vacuity) and the limits of the statements -/
+
+section Witness
+
+instance (t : TLV) : Decidable (OkTLV t) := by unfold OkTLV; infer_instance
+instance (r : RowIn) : Decidable (OkRow r) := by unfold OkRow; infer_instance
+
+def bitsOf (l : List Nat) : Nat := (l.map (2 ^ ·)).sum
+
+/-- counter 2.5 (quarters: 10), value_set, min 7, compact form (max, sum, sum of squares restored), explicit max host 3 -/
+def w1 : TLV :=
+  { mask := bitsOf [Gen.C03.bitCounter, Gen.C03.bitValueSet, Gen.C03.bitValueMin, Gen.C03.bitMaxHostTag], counter := 10, vmin := 7, vmax := 0,
+    sum := 0, sumsq := 0, uniques := [], cents := [], maxHostTag := 3, minHostTag := 0, cntHostTag := 0,
+    maxHostStag := [], minHostStag := [], cntHostStag := [] }
+/-- counter_eq_1, full form min 2 max 9 sum 11/4 sumsq 85/4, a sketch with the hashes 0 and 5 -/
+def w2 : TLV :=
+  { mask := bitsOf [Gen.C03.bitCounterEq1, Gen.C03.bitValueSet, Gen.C03.bitValueMin, Gen.C03.bitValueMax, Gen.C03.bitUniques], counter := 0,
+    vmin := 2, vmax := 9, sum := 11, sumsq := 85, uniques := [0, 2, 0, 0, 0, 0, 5, 0, 0, 0], cents := [], maxHostTag := 0, minHostTag := 0,
+    cntHostTag := 0, maxHostStag := [], minHostStag := [], cntHostStag := [] }
+/-- a pure counter 1/4 -/
+def w3 : TLV := { w1 with mask := bitsOf [Gen.C03.bitCounter], counter := 1, vmin := 0, maxHostTag := 0 }
+
+def kA : Key := mkKey 1700000000 5 [0, 4, 0] [[], [], [104]]
+def kB : Key := mkKey 1700000000 5 [0, 4] []
+def hostA : Tag := ⟨1, []⟩
+def hostB : Tag := ⟨0, [104, 66]⟩
+def topX : Tag := ⟨0, [120]⟩
+
+/-- three received rows: two for key A (one with a string top), one for key B -/
+def rowsW : List RowIn :=
+  [ ⟨kA, [(topX, w1)], w2, hostA⟩, ⟨kB, [], w1, hostB⟩, ⟨kA, [(topX, w3), (Tag.none, w3)], w1, hostB⟩ ]
+
+example : ∀ r ∈ rowsW, OkRow r := by decide
+
+/-- `row_is_merge` / `fold_sums` on the witness: the tail of key A got w2, w3 (empty top tag), w1 — count 1 + 1/4 + 5/2,
+    sum 11/4 + 7·5/2, min 2, max 9, hosts of the extreme values; the top "x" got w1 then w3 -/
+example : (valueAt (applyRows [] rowsW) kA Tag.none).v.cnt = 15 ∧ (valueAt (applyRows [] rowsW) kA Tag.none).v.sum = 81 ∧
+    (valueAt (applyRows [] rowsW) kA Tag.none).v.vmin = 2 ∧ (valueAt (applyRows [] rowsW) kA Tag.none).v.vmax = 9 ∧
+    (valueAt (applyRows [] rowsW) kA Tag.none).v.minHost = hostA ∧
+    (valueAt (applyRows [] rowsW) kA topX).v.cnt = 11 ∧ (valueAt (applyRows [] rowsW) kA topX).v.maxHost = ⟨3, []⟩ ∧
+    (valueAt (applyRows [] rowsW) kB Tag.none).v.cnt = 10 ∧
+    (contribsFor rowsW kA Tag.none).length = 3 := by decide
+
+/-- the written body of that bucket: three rows, pairwise different (key, top) -/
+example : rowKeys 20 (applyRows [] rowsW) = [(kA, Tag.none), (kA, topX), (kB, Tag.none)] := by decide
+
+/-- with StringTopCountInsert = 0 the top is folded into the tail by FinishStringTop: count 15/4 + 11/4 -/
+example : (bucketRows 0 (applyRows [] rowsW)).map (fun r => (r.1, r.2.1, r.2.2.v.cnt)) = [(kA, Tag.none, 26), (kB, Tag.none, 10)] := by decide
+
+/-- a negative counter is an ingestion error: the value is not merged and the rest of the row is skipped -/
+example : (mergeItem Item.zero [(topX, { w3 with counter := -4 })] w1 hostA) = (⟨MV.zero, [(topX, MV.zero)]⟩, 1) := by decide
+
+/-- Limit of `one_row_per_key`: it is per aggregator bucket. A body built from two buckets repeats a (time, key) when a row of
+    the recent bucket carries an explicit timestamp equal to the second of the historic bucket (both are inside the believe
+    window); ClickHouse merges the two rows. -/
+example : keyTime (some 1699999000) 1700000000 = keyTime Option.none 1699999000 := by decide
+
+/-- Limit of the key columns: a tag slot that holds an int AND a string is written as the int only (appendTag prefers I),
+    and slot 47 (the string-top index) of the key is never written — such keys are distinct map keys with equal columns. -/
+example : encTag ⟨5, [97]⟩ = encTag ⟨5, []⟩ := by decide
+
+/-- one row, byte for byte: key B of the witness bucket (host value bits are inputs) -/
+example : (encValue (valueAt (applyRows [] rowsW) kB Tag.none) ⟨hostB, [], 1, 2, 3, []⟩).take 16 =
+    [0, 0, 0, 0, 0, 0, 4, 64, 0, 0, 0, 0, 0, 0, 4, 64] := by decide
+
+end Witness
 end SH.C03
